@@ -76,6 +76,14 @@ func C14(c *Ctx) {
 				continue
 			}
 			for _, viol := range rep.Violations {
+				if strings.Contains(viol.What, "second generation in the same process") {
+					key := "sameprocess:" + s.Name + ":" + variantNames[v]
+					if !sites[key] {
+						sites[key] = true
+						c.confirmSameProcess(y, s, v, key, viol)
+					}
+					continue
+				}
 				site := viol.What
 				if k := strings.Index(site, "ranged over at "); k >= 0 {
 					site = site[k+len("ranged over at "):]
@@ -116,5 +124,35 @@ func (c *Ctx) confirmNondet(y *YGen, s *corpus.Spec, variant int, key string, v 
 		c.Report(key, fmt.Sprintf("output of grammar %s (%s) depends on the iteration order of the map at %s: %d distinct files in %d native runs", s.Name, vname, strings.TrimPrefix(key, "maporder:"), len(sums), runs), path)
 	} else {
 		c.Inconclusive("solver found an order-dependent map iteration (%s) but %d native runs produced identical files; not reported", key, runs)
+	}
+}
+
+// confirmSameProcess: the native driver generates the grammar three times in ONE process; the
+// files must be identical (and equal to what a fresh process writes).
+func (c *Ctx) confirmSameProcess(y *YGen, s *corpus.Spec, variant int, key string, v gosym.Violation) {
+	dir := c.Scratch()
+	vname := variantNames[variant]
+	var jobs []YJob
+	for i := 0; i < 3; i++ {
+		jobs = append(jobs, YJob{Name: s.Name, Text: s.GoText(), Variant: vname, Out: filepath.Join(dir, fmt.Sprintf("same%d.txt", i))})
+	}
+	res, err := y.Run(jobs, time.Minute)
+	if err != nil || len(res) != 3 {
+		c.Inconclusive("native generation failed while confirming %s", key)
+		return
+	}
+	sums := map[string]int{}
+	for _, j := range jobs {
+		b, _ := os.ReadFile(j.Out)
+		sums[fmt.Sprintf("%x", sha256.Sum256(b))[:12]]++
+	}
+	path := filepath.Join(VerifDir, "replays", c.ID, sanitize(key)+".json")
+	WriteJSON(path, map[string]interface{}{"property": c.ID, "key": key, "kind": "same-process", "grammar_name": s.Name, "variant": vname,
+		"grammar_text": s.GoText(), "distinct_outputs_of_three_generations_in_one_process": sums,
+		"replay": "call the generation entry point three times in one process on this grammar and compare the files"})
+	if len(sums) > 1 {
+		c.Report(key, fmt.Sprintf("grammar %s (%s): three generations in one process wrote %d different files", s.Name, vname, len(sums)), path)
+	} else {
+		c.Inconclusive("the engine saw a second generation in the same process differ (%s) but three native generations in one process wrote identical files; not reported", key)
 	}
 }
